@@ -22,8 +22,13 @@ def named_by_rules():
     if _NAMED is None:
         words = set()
         here = os.path.dirname(os.path.dirname(os.path.abspath(__file__)))
+        import tokenize
         for f in glob.glob(os.path.join(here, "rules", "*.py")):
-            words |= set(re.findall(r"[A-Za-z_][A-Za-z0-9_]*", open(f).read()))
+            # names are always written as (parts of) string literals; comments are not vocabulary
+            with open(f, "rb") as fh:
+                for tok in tokenize.tokenize(fh.readline):
+                    if tok.type == tokenize.STRING:
+                        words |= set(re.findall(r"[A-Za-z_][A-Za-z0-9_]*", tok.string))
         _NAMED = words
     return _NAMED
 
